@@ -40,7 +40,15 @@ def cases(draw):
     spec = draw(wfspecs({'max_tasks': 4, 'max_fcp': 6, 'abs': False,
                          'future': False}))
     k = draw(st.integers(1, min(2, len(spec['tasks']))))
-    seq = draw(st.lists(st.sampled_from(spec['tasks']), min_size=k,
+    # prefer tasks living on several recurrences and having other parents
+    # (there the choice of "previous instance" matters)
+    nsec = {t: sum(1 for sec in spec['sections']
+                   if any(t in ln['rhs'] for ln in sec['lines']))
+            for t in spec['tasks']}
+    multi = [t for t in spec['tasks'] if nsec[t] >= 2]
+    pool = multi if multi and draw(st.integers(0, 3)) else spec['tasks']
+    k = min(k, len(pool))
+    seq = draw(st.lists(st.sampled_from(pool), min_size=k,
                         max_size=k, unique=True))
     spec['extra']['sequential'] = seq
     spec['extra']['runahead'] = 'P%d' % draw(st.integers(0, 4))
